@@ -10,6 +10,7 @@ Ok(ev) == CASE ev.e = "store" -> StoreAllowed(ev)
             [] ev.e = "ptrload" -> PtrLoadAllowed(ev)
             [] ev.e = "ptrstore" -> PtrStoreAllowed(ev)
             [] ev.e = "ptrchain" -> NeverOut(ev)
+            [] ev.e = "entry" -> EntryAllowed(ev)
             [] ev.e = "setup" -> TRUE
             [] OTHER -> FALSE
 Bad == {i \in 1..Len(T) : ~Ok(T[i])}
